@@ -35,6 +35,11 @@ def make_cases(tier, rng):
                 add("inproc", ests, "hold:" + gate, hold={"gate": gate, "side": "", "ms": rng.choice([150, 400])})
     # an unmatched dial, then correctly established connections
     add("inproc", [g.est(rng, nopeer="dial_only"), g.est(rng, gap=0), g.est(rng, gap=100)], "unmatched")
+    # ... in the same direction as the unmatched dial (whose knock gRPC repeats when the first one timed out)
+    # and dialled twice (the second knock for an id whose first knock nobody took must simply be dropped)
+    for d in ["h2p", "p2h"]:
+        e1 = g.est(rng, d, nopeer="dial_only")
+        add("inproc", [e1, dict(e1), g.est(rng, d, gap=0), g.est(rng, d, rng.choice(["accept_first", "dial_first"]), gap=100)], "unmatched")
     # histories beyond the window: the accept comes after the dial gave up (5.5 s), then in-window establishments
     for d in ["h2p", "p2h"]:
         for _ in range(1 if tier == "quick" else 3):
